@@ -36,6 +36,10 @@ AREAS = ["parameters_a", "parameters_b", "parameters_c", "conditions", "directiv
 def obligations(tier):
     obs = [Ob("refenc_examples", "V", "v_examples", {}, 300, "reference encoder vs the real tool on the shipped example envelopes (sanity of the oracle; observation)", twin=False, weight=5)]
     for a in AREAS:
+        if a == "authentication":
+            for name, fix in AUTH_SPLIT:
+                obs.append(Ob(f"area_{a}{name}", "E1", "h_area", {"area": a, "fix": fix}, 1200, f"grammar area {a}, selectors fixed to {fix}: real bytes == reference bytes", weight=100))
+            continue
         if a in SPLITS:
             sel, n = SPLITS[a]
             for i in range(n):
@@ -46,6 +50,7 @@ def obligations(tier):
 
 
 # areas whose path product exceeds the budget are split on their top selector (the union of the parts is the stated bound)
+AUTH_SPLIT = [("", {"blocks": 0}), ("_blocks1", {"blocks": 1})] + [(f"_blocks2_names{j}", {"blocks": 2, "block_names": j}) for j in range(4)]
 SPLITS = {"textmap": ("entries", 4), "manifest_a": ("members", 5), "envelope_a": ("severed", 4), "encrypt": ("calg", 3), "common": ("members", 4), "component_id": ("part0", 4), "conditions": ("condition", 10)}
 
 
@@ -275,10 +280,12 @@ def build(area, L, exclude=()):
     if area == "authentication":
         d = {"SuitDigest": digest_desc(L, "wd")}
         n = L.sel("blocks", [0, 1, 2])
+        # the blocks are an array in description order whatever their numbered names are: ascending, descending, two-digit after one-digit
+        names = L.sel("block_names", [("1", "2"), ("2", "1"), ("2", "10"), ("9", "10")]) if n == 2 else ("1", "2")
         for i in range(n):
             # full header variety is the business of areas header/sign1; here: order and wrapping of the blocks
             prot = {"suit-cose-algorithm-id": L.sel(f"b{i}_alg", SIGN_ALGS) if i == 0 else "cose-alg-eddsa", "suit-cose-key-id": L.uint(f"b{i}_kid", 2**32 - 1 if i == 0 else 23)}
-            d[f"SuitAuthentication{i + 1}"] = {"CoseSign1Tagged": {"protected": prot, "unprotected": {}, "payload": None, "signature": L.hex(f"b{i}_sig", 4)}}
+            d[f"SuitAuthentication{names[i]}"] = {"CoseSign1Tagged": {"protected": prot, "unprotected": {}, "payload": None, "signature": L.hex(f"b{i}_sig", 4)}}
         return "SuitAuthentication", "authentication", d
     if area == "encrypt":
         # full header-map variety is the business of area `header`; here: layering of COSE_Encrypt / recipients (depth 2)
